@@ -407,7 +407,7 @@ fn c20_body<const N: usize, const M: usize, const K: usize, const FULL_IM: bool>
     out
 }
 
-// @check props=C20 tier=quick
+// @check props=C20 tier=thorough
 // @desc read on an empty cache: NoData, or BadParameter for an unknown instance handle; nothing changes
 // @bounds 0 stored samples, 2 instances (fully symbolic view/instance state, generation counts 0..10^6, handle with 2 symbolic bytes), all three masks: every non-empty subset (two symbolic slots or ANY), max_samples 1..=4 or i32::MAX, specific handle none/known/unknown; unwind 3
 // @assume I1: one InstanceState per handle and every stored sample has one; reader enabled
@@ -423,7 +423,7 @@ fn c20_read_n0() {
     kani::cover!(o.badparam, "BadParameter for an unknown handle");
 }
 
-// @check props=C20,C22 tier=quick
+// @check props=C20 tier=quick
 // @desc read with one stored sample: it is returned iff it matches the three masks (and the requested instance); read marks it READ and keeps it; SampleInfo states/counts/handles/valid_data/sample_rank; the instance becomes NOT_NEW and nothing else of any instance changes (C22: read/take never change instance_state or generation counts); NoData iff nothing matches; BadParameter iff the handle is unknown
 // @bounds 1 stored sample (all 5 change kinds, symbolic writer/timestamp/counts) of one of 2 instances (fully symbolic view/instance state, generation counts 0..10^6, handle with 2 symbolic bytes), all three masks: every non-empty subset (two symbolic slots or ANY), max_samples 1..=4 or i32::MAX, specific handle none/known/unknown; unwind 3, the loops over the collection being built capped at 2 iterations (one stored sample; per-loop bounds from the ptab entry, unwinding assertions on)
 // @assume I1: one InstanceState per handle and every stored sample has one; reader enabled
@@ -442,7 +442,7 @@ fn c20_read_n1() {
     kani::cover!(o.badparam, "BadParameter for an unknown handle");
 }
 
-// @check props=C20 tier=quick
+// @check props=C20 tier=thorough
 // @desc take on an empty cache: NoData, or BadParameter for an unknown instance handle; nothing changes
 // @bounds 0 stored samples, 2 instances (fully symbolic view/instance state, generation counts 0..10^6, handle with 2 symbolic bytes), all three masks: every non-empty subset (two symbolic slots or ANY), max_samples 1..=4 or i32::MAX, specific handle none/known/unknown; unwind 3
 // @assume I1: one InstanceState per handle and every stored sample has one; reader enabled
@@ -458,7 +458,7 @@ fn c20_take_n0() {
     kani::cover!(o.badparam, "BadParameter for an unknown handle");
 }
 
-// @check props=C20 tier=quick
+// @check props=C20,C22 tier=thorough
 // @desc take with one stored sample: it is returned iff it matches the three masks (and the requested instance); take removes it; SampleInfo states/counts/handles/valid_data/sample_rank; the instance becomes NOT_NEW and nothing else of any instance changes (C22: read/take never change instance_state or generation counts); NoData iff nothing matches; BadParameter iff the handle is unknown
 // @bounds 1 stored sample (all 5 change kinds, symbolic writer/timestamp/counts) of one of 2 instances (fully symbolic view/instance state, generation counts 0..10^6, handle with 2 symbolic bytes), all three masks: every non-empty subset (two symbolic slots or ANY), max_samples 1..=4 or i32::MAX, specific handle none/known/unknown; unwind 3, the loops over the collection being built capped at 2 iterations (one stored sample; per-loop bounds from the ptab entry, unwinding assertions on)
 // @assume I1: one InstanceState per handle and every stored sample has one; reader enabled
@@ -513,7 +513,7 @@ fn c20_ranks_n1__rest() {
     kani::cover!(o.ok, "a collection was returned");
 }
 
-// @check props=C20,C22,C23,C24 tier=quick
+// @check props=C20,C22,C23,C24 tier=thorough
 // @desc the loop-free replacements used as stubs agree with the derived PartialEq / Ord / PartialOrd of InstanceHandle for all pairs of handles (all 32 bytes symbolic)
 // @bounds none (all 2^256 pairs); unwind 17 (the derived comparisons are 16-byte memcmp loops)
 // @enc dcps::infrastructure::instance::InstanceHandle::eq
